@@ -80,11 +80,11 @@ def _(m):
 @mutant("c01_setitem_write_before_right_check", "C01")
 def _(m):
     patch_method(m["Fiber"], "__setitem__",
-                 "                if position + 1 < len(self.coords) and coord >= self.coords[position + 1]:\n"
-                 "                    raise CoordinateError\n",
-                 "                self.coords[position] = coord\n"
-                 "                if position + 1 < len(self.coords) and coord >= self.coords[position + 1]:\n"
-                 "                    raise CoordinateError\n")
+                 "            if position + 1 < len(self.coords) and coord >= self.coords[position + 1]:\n"
+                 "                raise CoordinateError\n",
+                 "            self.coords[position] = coord\n"
+                 "            if position + 1 < len(self.coords) and coord >= self.coords[position + 1]:\n"
+                 "                raise CoordinateError\n")
 
 
 @mutant("c01_setitem_no_left_check", "C01")
@@ -788,6 +788,101 @@ def _(m):
     patch_modfunc(it, "iterRange", "                if start_pos is not None:\n                    self.setSavedPos(i + j, distance=j)",
                   "                if start_pos is not None or (tick and not self.isLazy()):\n                    self.setSavedPos(i + j, distance=j)",
                   also=(m["Fiber"],))
+
+
+# ------------------------------------------------------------------------------- round-8/9 oracles
+@mutant("c15_dump_snapshot_survives_begincollect", "C15")
+def _(m):
+    M = m["Metrics"]
+    odump, oinc = M.__dict__["dump"].__func__, M.__dict__["incCount"].__func__
+    state = {"report": None}
+
+    def dump(cls):
+        if cls.metrics is None:
+            return None
+        if state["report"] is None:
+            state["report"] = {k: dict(v) for k, v in cls.metrics.items()}
+        return state["report"]
+
+    def incCount(cls, line, metric, inc):
+        oinc(cls, line, metric, inc)
+        state["report"] = None
+    M.dump, M.incCount = classmethod(dump), classmethod(incCount)
+
+
+@mutant("c16_adduse_returns_before_point_update_when_untraced", "C16")
+def _(m):
+    patch_method(m["Metrics"], "addUse", "    # Update the point\n", "    if not cls.traces:\n        return\n    # Update the point\n")
+
+
+@mutant("c17_buffet_pops_evict_on_from_the_binding", "C17")
+def _(m):
+    T = m["traffic"].Traffic
+    patch_method(T, "buffetTraffic", "binding[\"evict-on\"]", "binding.pop(\"evict-on\", \"root\")")
+
+
+@mutant("c13_dict2fiber_decodes_in_place", "C13")
+def _(m):
+    patch_method(m["Fiber"], "dict2fiber",
+                 "        f_payloads = []\n        for y_f_payload in y_f_payloads:\n            f_payloads.append(Fiber.dict2fiber(y_f_payload, level + 1))",
+                 "        for i_, y_f_payload in enumerate(y_f_payloads):\n            y_f_payloads[i_] = Fiber.dict2fiber(y_f_payload, level + 1)\n        f_payloads = y_f_payloads")
+
+
+@mutant("c03_setitem_stores_before_it_checks", "C03")
+def _(m):
+    MUTANTS["c01_setitem_write_before_right_check"][1](m)
+
+
+@mutant("c06_append_checks_order_after_storing", "C06")
+def _(m):
+    patch_method(m["Fiber"], "append", [
+        ("    if self._ordered:\n        assert self.maxCoord() is None or self.maxCoord() < coord, \\\n               \"Fiber coordinates in 'ordered' fibers must be monotonically increasing\"\n", ""),
+        ("    self.payloads.append(payload)\n",
+         "    self.payloads.append(payload)\n    if self._ordered:\n        assert len(self.coords) < 2 or self.coords[-2] < coord, \\\n               \"Fiber coordinates in 'ordered' fibers must be monotonically increasing\"\n")], None)
+
+
+@mutant("c05_default_remembered_on_the_fiber", "C05")
+def _(m):
+    F = m["Fiber"]
+    orig = F.getDefault
+
+    def getDefault(self):
+        if self.getOwner() is None:
+            return orig(self)
+        memo = self.__dict__.get("_default_memo")
+        if memo is None or memo[0] is not self.getOwner():
+            memo = self.__dict__["_default_memo"] = (self.getOwner(), orig(self))
+        return memo[1]
+    F.getDefault = getDefault
+
+
+@mutant("c10_float_default_handed_out_as_the_stored_box", "C10")
+def _(m):
+    patch_method(m["RankAttrs"], "getDefault", "    return deepcopy(self._default)",
+                 "    if isinstance(value, (float, str)):\n        return self._default\n    return deepcopy(self._default)")
+
+
+@mutant("c19_leaderfollower_arity_checked_after_start", "C19")
+def _(m):
+    I = m["intersect"]
+    patch_method(I.LeaderFollowerIntersector, "addTraces", [
+        ("    assert len(traces) == 1\n", ""),
+        ("    self.num_intersects += new_intersects", "    assert len(traces) == 1\n    self.num_intersects += new_intersects")], None)
+
+
+@mutant("c16_endcollect_stops_collecting_even_when_rejected", "C16")
+def _(m):
+    M = m["Metrics"]
+    orig = M.__dict__["endCollect"].__func__
+
+    def endCollect(cls):
+        try:
+            return orig(cls)
+        except AssertionError:
+            cls.collecting = False
+            cls.traces = {}
+            raise
+    M.endCollect = classmethod(endCollect)
 
 
 def apply(name):
